@@ -11,7 +11,9 @@ THEOREMS = ["C07_roundtrip_refuted", "C07_roundtrip_outside_known", "C07_roundtr
             "C07_known_classes_fail", "C07_tiers_agree_refuted", "C07_tiers_agree_outside_known",
             "C07_zone_pointwise", "C07_zone_roundtrip", "C07_compaction_fixpoint", "C07_string_retyped_characterised",
             "C07_projection", "C07_projection_example", "C07_memtable_flow_exact", "C07_wal_exact",
-            "C07_restart_invisible", "C07_former_witnesses_pass", "C07_sink_agrees"]
+            "C07_restart_invisible", "C07_former_witnesses_pass", "C07_sink_agrees",
+            "C07_core_roundtrip_outside_known", "C07_core_known_fails", "C07_core_refuted", "C07_core_tiers_agree",
+            "C07_for_selects_exact", "C07_core_sink_characterised"]
 RULE = ("function level: JSON texts / scalars / cell texts through the real STORE parser, ScalarValue::from / to_json, "
         "WalEntry serde round trip, EventBuilder and real column blocks (ColumnGroupBuilder -> decoder -> both "
         "materialisations -> values_to_scalar); engine level: one schema with every field type (string, int, u64, float, "
@@ -20,7 +22,10 @@ RULE = ("function level: JSON texts / scalars / cell texts through the real STOR
         "before FLUSH, after a WAL-recovering restart, after FLUSH, after a compaction round and after a restart; every "
         "returned cell is compared with the model's prediction and, independently, with the stored value. Non-trivial = a "
         "cell observed outside the plain memtable (WAL-recovered or in a segment) or a function-level case the "
-        "implementation answered; distinct by (field type, stored value, layout) resp. the case line")
+        "implementation answered; distinct by (field type, stored value, layout) resp. the case line. Context ids and event type "
+        "names are drawn from spelling families that look like something else (leading zeros, signs, exponents, hex, keywords, "
+        "huge digit strings, surrounding blanks, JSON text) and are compared as cells in every tier incl. the passive buffer; "
+        "reads FOR <ctx> are checked in both directions")
 ASSUMPTIONS = [
     "Rust's Display for f64 followed by str::parse::<f64> is the identity (std guarantee); modelled as the identity for F64 blocks",
     "the column block codec (lz4, mmap reader) is the identity on typed cell lists (exercised by the value_block probe and the engine runs, not modelled)",
@@ -316,6 +321,43 @@ def gen_value(rng, name):
 
 
 # ------------------------------------------------------------------ cases
+# Context ids and event type names that "look like something else".  A context id is an identifier or a string
+# literal without '"' (no escapes); it must not be blank.  Spelling families: the same integer in several spellings.
+CTX_FAMILIES = [["0042", "42", "+42", " 42", "42 ", "042"], ["00123", "123"], ["+7", "7", "07", " 7 ", "7.0"], ["-0", "0", "+0", "00", "000", "0.0"],
+                ["-5", "-05", "-5 "], ["1e3", "1E3", "1000", "1e+3"], ["1.0", "1", "01"], ["9999999999999999999", "09999999999999999999", "+9999999999999999999"],
+                ["18446744073709551615", "18446744073709551616", "99999999999999999999"], ["9223372036854775807", "9223372036854775808", "-9223372036854775808"],
+                ["true", "True", "TRUE"], ["null", "NULL", "nil"], ["[1]", "[ 1 ]", "[1"], ["{}", "{ }", "{\\"], ["0x10", "16", "0x1"], ["NaN", "nan", "inf", "-inf"],
+                ["c0", "C0", "c0 "], ["\u00a07", "\u30007", "7\u2003"], ["\u00e9", "e\u0301"], [".5", "0.5", "5."], ["\U0001F600", "a b", "a  b"]]
+ETYPES = ["t", "t", "null", "true", "NaN", "inf", "Infinity", "e3", "False", "nan", "x0", "T", "i64"]
+
+
+def ctx_ok(cx):
+    return cx.strip() != "" and '"' not in cx and "\n" not in cx and "\r" not in cx
+
+
+def quote_ctx(cx, rng=None):
+    import re as _re
+    if rng is not None and _re.fullmatch(r"[A-Za-z_][A-Za-z0-9_]*", cx) and rng.chance(1, 2):
+        return cx
+    return '"' + cx + '"'
+
+
+def gen_contexts(rng):
+    """3-5 context ids of one history: two spelling families (so that contexts differing only in spelling coexist)."""
+    out = []
+    for fam in (rng.choice(CTX_FAMILIES), rng.choice(CTX_FAMILIES)):
+        k = rng.range(2, 3)
+        picks = list(fam)
+        while len(picks) > k:
+            picks.pop(rng.below(len(picks)))
+        out += picks
+    if rng.chance(1, 3):
+        n = rng.range(0, 10 ** rng.range(1, 21))
+        out += [str(n), "0" * rng.range(1, 3) + str(n)]
+    out = [cx for i, cx in enumerate(out) if ctx_ok(cx) and cx not in out[:i]]
+    return out or ["c0", "c1"]
+
+
 def corpus():
     return base.corpus_for(PROP)
 
@@ -374,6 +416,13 @@ def fn_cases(rng, tier):
             m += rng.choice(["e", "E"]) + rng.choice(["", "-", "+"]) + str(rng.range(0, rng.choice([5, 30, 330, 5000, 3 * 10 ** 9])))
         m = rng.choice(["", "", " "]) + m + rng.choice(["", "", " ", "x"])
         add("fromjson_num", f"value_fromjson {hx(m)}", m)
+    # core string columns (context_id / event_type) of a flushed zone through the REAL evaluator
+    core_pool = [cx for fam in CTX_FAMILIES for cx in fam] + ETYPES + ["", " ", "-", "+", "--1", "1_0", "١٢٣"]
+    for k in range(60 * n):
+        texts = [rng.choice(core_pool) if rng.chance(3, 4) else gen_string(rng)[:200] for _ in range(rng.range(1, 6))]
+        texts = [t for t in texts if " " not in t.strip() or True]
+        fld = rng.choice(["context_id", "context_id", "event_type"])
+        add("core_block", f"value_core {fld} {rng.range(0, 2)} " + " ".join(hexs(t) or "-" for t in texts), f"{fld} {texts!r}"[:160], texts=texts)
     # real column blocks
     phys = ["var", "i64", "u64", "f64", "bool"]
     for _ in range(120 * n):
@@ -412,6 +461,10 @@ def engine_cases(rng, tier):
     n = 8 if tier == "quick" else 300
     for h in range(n):
         cfg, mode = CFGS[h % len(CFGS)] if h < 8 else rng.choice(CFGS)
+        passive = (h % 3 == 1)
+        if passive:
+            # the 4th STORE fills the memtable; the flush worker is parked and the rows are read from the PASSIVE buffer
+            cfg, mode = {"fill_factor": 1, "event_per_zone": 4}, "covered"
         cap = cfg["fill_factor"] * cfg["event_per_zone"]
         maxb = min(cap - 1, cfg["event_per_zone"] if mode == "single" else 7, 5 if tier == "quick" else 8)
         nb = rng.range(2, 3) if tier == "quick" else rng.range(2, 4)
@@ -419,15 +472,17 @@ def engine_cases(rng, tier):
         pol = {}
         for f in OPTIONAL:
             pol[f] = "covered" if mode == "covered" else rng.choice(["covered", "mixed"])
-        if h >= 4 and rng.chance(3, 10):
+        if h >= 4 and not passive and rng.chance(3, 10):
             # a key that no event of the history carries: the column file is never written (and compaction fails)
             for _ in range(rng.range(1, 2)):
                 pol[rng.choice(OPTIONAL)] = "never"
         events, batches = [], []
+        ctxs = gen_contexts(rng) if h % 4 != 3 else ["c0", "c1", "c2"]
+        etype = rng.choice(ETYPES) if h % 2 == 0 else "t"
         for b in range(nb):
             ids = []
-            for _ in range(rng.range(2, maxb)):
-                ev = {"zid": len(events), "ctx": "c%d" % rng.below(3), "send": {}, "exp": {}}
+            for _ in range(cap if (passive and b == 0) else rng.range(2, maxb)):
+                ev = {"zid": len(events), "ctx": rng.choice(ctxs), "send": {}, "exp": {}}
                 for name, _t, _ in FIELDS:
                     if name == "zid":
                         ev["send"][name] = ev["exp"][name] = ev["zid"]
@@ -451,14 +506,17 @@ def engine_cases(rng, tier):
                         events[ids[0]]["send"][f] = None
                         events[ids[0]]["exp"][f] = None
             batches.append(ids)
+        # reads are also issued FOR spellings under which nothing was stored (the other members of the families)
+        probes = [cx for fam in CTX_FAMILIES if any(x in fam for x in ctxs) for cx in fam if cx not in ctxs and ctx_ok(cx)]
         plan = {"wal_restart_first": rng.chance(2, 3), "restart_end": rng.chance(2, 3), "compact": rng.chance(4, 5),
+                "passive": passive, "probes": probes[:4],
                 "ret": [rng.choice([n_ for n_, _, _ in FIELDS]) for _ in range(rng.range(1, 4))] + rng.choice([[], ["nosuch"], ["timestamp"], ["s", "s"]])}
         for ev in events:
-            ev["line"] = "STORE t FOR %s PAYLOAD {%s}" % (ev["ctx"], ", ".join(json.dumps(k) + ": " + json_text(v, rng) for k, v in ev["send"].items()))
+            ev["line"] = "STORE %s FOR %s PAYLOAD {%s}" % (etype, quote_ctx(ev["ctx"], rng), ", ".join(json.dumps(k) + ": " + json_text(v, rng) for k, v in ev["send"].items()))
             ev["expc"] = {k: stored_canon(v) for k, v in ev["exp"].items()}
             del ev["send"], ev["exp"]
-        out.append({"kind": "engine", "cfg": cfg, "mode": mode, "events": events, "batches": batches, "plan": plan,
-                    "show": f"engine cap={cfg['fill_factor']}x{cfg['event_per_zone']} {mode} batches={[len(b) for b in batches]} plan={plan}"})
+        out.append({"kind": "engine", "cfg": cfg, "mode": mode, "etype": etype, "events": events, "batches": batches, "plan": plan,
+                    "show": f"engine type={etype} contexts={ctxs} cap={cfg['fill_factor']}x{cfg['event_per_zone']} {mode} batches={[len(b) for b in batches]} plan={plan}"})
     return out
 
 
@@ -466,7 +524,7 @@ BENIGN = {"s": "plain", "s2": "x y", "os": "v", "os2": "w", "i": 1, "oi": 2, "u"
           "k": "aa", "d": 1700000000, "od": 1700000001, "dd": 1699920000, "odd": 1699920000}
 
 
-def hand_case(overrides, ret, show, cfg=None):
+def hand_case(overrides, ret, show, cfg=None, ctxs=None, etype="t", plan_extra=None):
     """A small hand-written history: one batch, read from memory and after FLUSH. overrides: list of {field: value | ABSENT}."""
     events = []
     for n, ov in enumerate(overrides):
@@ -475,13 +533,15 @@ def hand_case(overrides, ret, show, cfg=None):
         vals["zid"] = n
         send = {k: v for k, v in vals.items() if v is not ABSENT}
         order = [f for f, _, _ in FIELDS]
-        ev = {"zid": n, "ctx": "c%d" % (n % 2),
-              "line": "STORE t FOR c%d PAYLOAD {%s}" % (n % 2, ", ".join(json.dumps(k) + ": " + json_text(send[k]) for k in order if k in send)),
+        cx = ctxs[n % len(ctxs)] if ctxs else "c%d" % (n % 2)
+        ev = {"zid": n, "ctx": cx,
+              "line": "STORE %s FOR %s PAYLOAD {%s}" % (etype, quote_ctx(cx), ", ".join(json.dumps(k) + ": " + json_text(send[k]) for k in order if k in send)),
               "expc": {k: stored_canon(vals.get(k, ABSENT)) for k in order}}
         events.append(ev)
-    return {"kind": "engine_corpus", "cfg": cfg or {"fill_factor": 2, "event_per_zone": 8}, "mode": "single", "events": events,
-            "batches": [list(range(len(events)))], "plan": {"wal_restart_first": False, "restart_end": False, "compact": False, "ret": ret, "short": True},
-            "show": show}
+    plan = {"wal_restart_first": False, "restart_end": False, "compact": False, "ret": ret, "short": True}
+    plan.update(plan_extra or {})
+    return {"kind": "engine_corpus", "cfg": cfg or {"fill_factor": 2, "event_per_zone": 8}, "mode": "single", "etype": etype, "events": events,
+            "batches": [list(range(len(events)))], "plan": plan, "show": show}
 
 
 def cases(rng, tier):
@@ -489,8 +549,8 @@ def cases(rng, tier):
 
 
 # ------------------------------------------------------------------ engine driver
-def define_line():
-    return "DEFINE t FIELDS { " + ", ".join(f'"{n}": {spec}' for n, _t, spec in FIELDS) + " }"
+def define_line(etype="t"):
+    return "DEFINE " + etype + " FIELDS { " + ", ".join(f'"{n}": {spec}' for n, _t, spec in FIELDS) + " }"
 
 
 def py_of_canon(c):
@@ -511,7 +571,7 @@ def run_history(c):
     eng = engine.Engine(segments_per_merge=2, **c["cfg"])
     try:
         eng.start()
-        r = eng.cmd(define_line())
+        r = eng.cmd(define_line(c.get("etype", "t")))
         if '"status":200' not in r.get("out", ""):
             res["notes"].append(f"DEFINE failed: {r}")
             return res
@@ -519,26 +579,37 @@ def run_history(c):
         segs = []            # flushed batches: lists of zids sharing the segment (zone composition for col_present)
         plan = c["plan"]
 
+        et = c.get("etype", "t")
+        res["times"] = {}
+
         def store(ids):
+            import time as _t
             for i in ids:
                 ev = c["events"][i]
+                t0 = int(_t.time())
                 r = eng.cmd(ev["line"])
                 if '"status":200' in r.get("out", ""):
                     layout[i] = [False, None, None]
                     res["stored"].append(i)
+                    res["times"][str(i)] = [t0 - 1, int(_t.time()) + 1]
                 else:
                     res["rejected"].append([i, json.dumps(r)[:200]])
 
-        def observe(tag):
-            eng.cmd("!flushwait")
+        def observe(tag, wait=True):
+            if wait:
+                eng.cmd("!flushwait")
             ctxs = sorted({c["events"][i]["ctx"] for i in layout})
-            cmds = [("QUERY t", None), ("QUERY t RETURN [%s]" % ", ".join(plan["ret"]), plan["ret"])]
+            cmds = [(f"QUERY {et}", None, None), (f"QUERY {et} RETURN [%s]" % ", ".join(plan["ret"]), plan["ret"], None)]
             if ctxs:
-                cmds.append((f"REPLAY t FOR {ctxs[len(res['obs']) % len(ctxs)]}", None))
-                cmds.append((f"REPLAY FOR {ctxs[-1]} RETURN [%s]" % ", ".join(plan["ret"]), plan["ret"]))
+                k = len(res["obs"])
+                pool = ctxs + list(plan.get("probes") or [])
+                q1, q2, q3 = pool[k % len(pool)], pool[(k + 1) % len(pool)], pool[(k + 2) % len(pool)]
+                cmds.append((f"QUERY {et} FOR {quote_ctx(q1)}", None, q1))
+                cmds.append((f"REPLAY {et} FOR {quote_ctx(q2)}", None, q2))
+                cmds.append((f"REPLAY FOR {quote_ctx(q3)} RETURN [%s]" % ", ".join(plan["ret"]), plan["ret"], q3))
             lay = {str(i): list(v) for i, v in layout.items()}
             groups = [list(g) for g in segs]
-            for cmd, ret in cmds:
+            for cmd, ret, scope in cmds:
                 r = eng.rows(cmd)
                 for _ in range(3):
                     # a read that hits the harness's 15 s command timeout on the overloaded machine is repeated
@@ -549,8 +620,8 @@ def run_history(c):
                 rows = []
                 for row in r["rows"]:
                     rows.append([[k, canon_json(v)] for k, v in row.items()])
-                res["obs"].append({"tag": tag, "cmd": cmd, "ret": ret, "status": r["status"], "rows": rows, "layout": lay, "groups": groups,
-                                   "err": r.get("error")})
+                res["obs"].append({"tag": tag, "cmd": cmd, "ret": ret, "scope": scope, "status": r["status"], "rows": rows, "layout": lay,
+                                   "groups": groups, "err": r.get("error")})
 
         def flush(ids):
             r = eng.cmd("FLUSH")
@@ -562,6 +633,27 @@ def run_history(c):
                 segs.append(live)
 
         batches = c["batches"]
+        if plan.get("passive"):
+            # read while the rows sit in the PASSIVE buffer: the STORE that fills the memtable rotates it, the flush
+            # worker is parked before it writes anything (no earlier segment exists, so the known C03
+            # read-during-flush finding cannot interfere)
+            store(batches[0][:-1])
+            pk = eng.cmd("!park fw_begin")
+            store(batches[0][-1:])
+            w = eng.cmd("!wait_parked fw_begin 3000") if pk.get("ok") else {}
+            if w.get("parked"):
+                observe("passive", wait=False)
+            else:
+                res["notes"].append(f"flush worker did not park at fw_begin: {pk} {w}")
+            eng.cmd("!release fw_begin")
+            eng.cmd("!flushwait")
+            live = [i for i in batches[0] if i in layout]
+            for i in live:
+                layout[i][1] = 0
+            if live:
+                segs.append(live)
+            observe("seg")
+            batches = [[]] + list(batches[1:])
         store(batches[0])
         observe("mem")
         if plan["wal_restart_first"]:
@@ -654,6 +746,11 @@ def cell_checks(c, impl):
             i = int(z[1:])
             w, s, _ = lay[z[1:]]
             for name, got in row:
+                if name in ("context_id", "event_type"):
+                    text = evs[i]["ctx"] if name == "context_id" else c.get("etype", "t")
+                    out.append({"zid": i, "field": name, "src": name, "ft": "core", "lay": "w%ds%s" % (1 if w else 0, "-" if s is None else s), "cp": True,
+                                "st": "s" + hexs(text), "got": got, "obs": oi, "mem": s is None})
+                    continue
                 if name in CORE or name not in FTYPE:
                     continue
                 st = evs[i]["expc"][name]
@@ -704,6 +801,8 @@ def assign_sources(c, r, modelval):
 
 
 def cell_line(x):
+    if x["ft"] == "core":
+        return f"value_corecell {x['lay']} {x['st'][1:] or '-'}"
     return f"value_cell {x['ft']} {x['lay']} {1 if x['cp'] else 0} {x['st']}"
 
 
@@ -753,6 +852,21 @@ def run_sides(cases_, model_ok):
                 if o["rows"] and o["ret"] is not None and o["tag"] in full_cols:
                     r["projs"].append({"obs": oi, "line": proj_line(full_cols[o["tag"]], o["ret"]), "got": ",".join(hexs(k) for k, _ in o["rows"][0]),
                                        "cols": full_cols[o["tag"]]})
+            r["fors"] = []
+            emap = eid_map(r)
+            for oi, o in enumerate(r["obs"]):
+                if o.get("scope") is None:
+                    continue
+                got = set()
+                for row in o["rows"]:
+                    z = row_zid(dict(row), o, emap)
+                    if z and z.startswith("i"):
+                        got.add(z[1:])
+                for zs, (w, sg, _b) in o["layout"].items():
+                    lay = "w%ds%s" % (1 if w else 0, "-" if sg is None else sg)
+                    line = f"value_for {lay} {hexs(o['scope']) or '-'} {hexs(cases_[i]['events'][int(zs)]['ctx']) or '-'}"
+                    r["fors"].append({"obs": oi, "zid": int(zs), "line": line, "got": "1" if zs in got else "0"})
+                    want[line] = None
             for x in r["cells"]:
                 want[cell_line(x)] = None
                 if x["mem"]:
@@ -775,6 +889,8 @@ def run_sides(cases_, model_ok):
                 x["own_model"] = want.get(cell_line(x))
             for p in r["projs"]:
                 p["model"] = want.get(p["line"])
+            for f in r["fors"]:
+                f["model"] = want.get(f["line"])
             model[i] = "engine" if model_ok else None
     return impl, model
 
@@ -796,6 +912,10 @@ def diffs(c, impl, model):
             pass
         elif len(m) > 2 and m[2] != "ok":
             out.append(f"event {x['zid']} field {x['field']}: generated value {x['st'][:60]} is not conforming in the model")
+    for f in impl.get("fors", []):
+        if f["model"] is not None and f["model"] != f["got"]:
+            out.append(f"{impl['obs'][f['obs']]['cmd']} [{impl['obs'][f['obs']]['tag']}]: event {f['zid']} stored under {c['events'][f['zid']]['ctx']!r}: "
+                       f"engine {'returns' if f['got'] == '1' else 'omits'} it, model {f['model']}")
     for p in impl.get("projs", []):
         if p["model"] != p["got"]:
             out.append(f"projection {impl['obs'][p['obs']]['cmd']}: engine columns {p['got']} model {p['model']}")
@@ -873,10 +993,7 @@ def engine_failures(c, impl):
             fails.append((f"{o['cmd']} [{o['tag']}] answered status {o['status']} {o.get('err')}", None))
             continue
         seen = set()
-        scope = None
-        parts = o["cmd"].split()
-        if parts[0] == "REPLAY":
-            scope = parts[parts.index("FOR") + 1]
+        scope = o.get("scope")
         for row in o["rows"]:
             d = dict(row)
             z = row_zid(d, o, emap)
@@ -893,10 +1010,14 @@ def engine_failures(c, impl):
             for k in CORE:
                 if k not in d:
                     fails.append((f"{o['cmd']} [{o['tag']}]: core field {k} missing from the row of event {i}", None))
-            if d.get("context_id") != "s" + hexs(ev["ctx"]):
-                fails.append((f"{o['cmd']} [{o['tag']}]: event {i} stored for context {ev['ctx']} returned with context_id {d.get('context_id')}", None))
-            if d.get("event_type") != "s" + hexs("t"):
-                fails.append((f"{o['cmd']} [{o['tag']}]: event {i} returned with event_type {d.get('event_type')}", None))
+            # (context_id and event_type are compared as cells below, like every payload value)
+            # a read FOR q returns only what was stored under exactly q: spellings stay apart
+            if scope is not None and ev["ctx"] != scope:
+                fails.append((f"{o['cmd']} [{o['tag']}]: event {i}, stored for context {ev['ctx']!r}, is returned by a read FOR {scope!r}", None))
+            ts = d.get("timestamp")
+            tr = (impl.get("times") or {}).get(str(i))
+            if ts is not None and ts.startswith("i") and tr and not (tr[0] <= int(ts[1:]) <= tr[1]):
+                fails.append((f"{o['cmd']} [{o['tag']}]: event {i} stored at {tr} is returned with timestamp {ts[1:]}", None))
             for k in ("timestamp", "event_id"):
                 v = d.get(k)
                 if v is not None:
@@ -922,7 +1043,7 @@ def engine_failures(c, impl):
         for zs in o["layout"]:
             i = int(zs)
             if (scope is None or evs[i]["ctx"] == scope) and i not in seen:
-                fails.append((f"{o['cmd']} [{o['tag']}]: stored event {i} (context {evs[i]['ctx']}) not returned", None))
+                fails.append((f"{o['cmd']} [{o['tag']}]: stored event {i} (context {evs[i]['ctx']!r}) not returned", None))
     for x in impl.get("cells", []):
         exp = py_of_canon(x["st"])
         got, _ = py_of_json_canon(x["got"])
@@ -962,10 +1083,29 @@ def pick_failure(c, impl):
 FN_CLASS = {"tojson_str": "Utf8ReparsedOnRender", "builder_var": "StringRetyped"}
 
 
+def core_block_failure(c, impl):
+    """(description, only the render rule failed?) for a value_core line"""
+    rows = impl.split(" | ")[0].split(" ")
+    if len(rows) != len(c["texts"]):
+        return f"{c['line'][:80]}: {impl[:120]}", False
+    for t, r in zip(c["texts"], rows):
+        a, _sink, js = r.split(";")
+        if a != "U" + hexs(t):
+            return f"a flushed {c['line'].split()[1]} holding {t!r} is materialised as {a}", False
+    for t, r in zip(c["texts"], rows):
+        a, _sink, js = r.split(";")
+        if js != "s" + hexs(t):
+            return f"the {c['line'].split()[1]} {t!r} is rendered as {js[:60]}", True
+    return None
+
+
 def oracle(c, impl):
     if c.get("line"):
         if impl in ("PANIC", "ABORT"):
             return f"implementation {impl} on {c.get('show')!r}"
+        if c.get("kind") == "core_block":
+            f = core_block_failure(c, impl)
+            return f[0] if f else None
         exp = c.get("expect")
         if exp is None or impl == "ERR":
             return None
@@ -987,6 +1127,9 @@ def classify(c, impl, model=None):
         # a function-level failure belongs to its class only when the model predicts exactly this output
         if impl in ("PANIC", "ABORT") or (model is not None and model != impl):
             return None
+        if c.get("kind") == "core_block":
+            f = core_block_failure(c, impl)
+            return "Utf8ReparsedOnRender" if f and f[1] else None
         return FN_CLASS.get(c.get("kind"))
     f = pick_failure(c, impl)
     if not f:
